@@ -652,6 +652,14 @@ func boundTypeParams(p *Package, fn *Element, sig *types.Signature, args []*Elem
 		targs := make([]types.Type, n)
 		m := 0 // number of explicitly provided type arguments
 		for i := 0; i < n; i++ {
+			if from+i >= len(args) { // fewer arguments than type parameters
+				if i == 0 {
+					err := p.cb.newCodeErrorf(getSrcPos(fn.Src), getSrcEnd(fn.Src),
+						"not enough arguments in call to %s: a type argument is required", exprString(fn.Val))
+					return fn, sig, args, err
+				}
+				break
+			}
 			arg := args[from+i]
 			t, ok := arg.Type.(*TypeType)
 			if !ok {
